@@ -252,11 +252,11 @@ partial def fromJ (pfx : String) (parentKind field : String) (j : J) : Node :=
       let sp := spanOfJ j
       let sub (f : String) : Node := fromJ pfx kind f (j.getD f)
       let subL (f : String) : List Node := (j.getD f).arrD.map (fromJ pfx kind f)
-      let generic : Node :=
+      let generic : Unit → Node := fun _ =>
         let kvs' := kvs.filter (fun kv => kv.1 != "type" && kv.1 != "span" && !droppedKeys.contains kv.1)
         .other kind sp (kvs'.map (·.1)) (kvs'.map fun kv => fromJ pfx kind kv.1 kv.2)
       if literalKinds.contains kind then
-        if nonExprLitField parentKind field then generic
+        if nonExprLitField parentKind field then generic ()
         else if kind == "StringLiteral" then .lit kind (j.getD "value").strD (j.getD "raw").strD sp
         else
           let kvs' := kvs.filter (fun kv => kv.1 != "type" && kv.1 != "span")
@@ -271,7 +271,7 @@ partial def fromJ (pfx : String) (parentKind field : String) (j : J) : Node :=
       else if kind == "BinaryExpression" then .bin (j.getD "operator").strD (sub "left") (sub "right") sp
       else if kind == "AssignmentExpression" then .assign (j.getD "operator").strD (sub "left") (sub "right") sp
       else if kind == "TemplateLiteral" then
-        if parentKind == "TaggedTemplateExpression" && field == "template" then generic
+        if parentKind == "TaggedTemplateExpression" && field == "template" then generic ()
         else .tpl (subL "expressions") (subL "quasis") sp
       else if kind == "CallExpression" then
         if parentKind == "OptionalChainingExpression" && field == "base" then
@@ -292,7 +292,7 @@ partial def fromJ (pfx : String) (parentKind field : String) (j : J) : Node :=
       else if kind == "BlockStatement" then .block (subL "stmts") sp
       else if kind == "IfStatement" then .ifStmt (sub "test") (sub "consequent") (sub "alternate") sp
       else if kind == "ExpressionStatement" then .exprStmt (sub "expression") sp
-      else generic
+      else generic ()
 
 /-- convert a swc `Program` JSON; `none` when the size check fails (a sub-tree was lost by the glue) -/
 def programFromJ (pfx : String) (j : J) : Except String Node :=
